@@ -143,46 +143,37 @@ def Child.tag : Child → Str
 
 def isBad : Child → Bool | .bad => true | _ => false
 
-/-- effective value of a single-valued attribute after load -/
-def decAttr1 (fi : FInfo) (attrs : List (Str × Str)) (cs : List Child) : SlotV Str :=
-  let fromKids := cs.filterMap fun
-    | .nil t => if t == fi.name then some (Option.none : Option Str) else Option.none
-    | .text t s => if t == fi.name then some (some s) else Option.none
-    | _ => Option.none
-  let v : Option Str := match fromKids.getLast? with
-    | some r => r
-    | Option.none => match attrs.lookup fi.name with
-      | some s => some s
-      | Option.none => fi.dflt
-  match v with
-  | Option.none => .none
-  | some s => .attr1 s
+/-- the value a child element gives to attribute `f`: `xsi:nil` is None, otherwise the text -/
+def kidVal (f : Str) : Child → Option (Option Str)
+  | .nil t => if t == f then some Option.none else Option.none
+  | .text t s => if t == f then some (some s) else Option.none
+  | _ => Option.none
 
-def decAttrN (mm : MMX) (fi : FInfo) (attrs : List (Str × Str)) (cs : List Child) : SlotV Str :=
-  let fromAttr : List (Option Str) := match attrs.lookup fi.name with
-    | some s => (pySplit mm.ws s).map some
-    | Option.none => []
-  let fromKids := cs.filterMap fun
-    | .nil t => if t == fi.name then some (Option.none : Option Str) else Option.none
-    | .text t s => if t == fi.name then some (some s) else Option.none
-    | _ => Option.none
-  .attrN (fromAttr ++ fromKids)
-
-def decRef1 (fi : FInfo) (attrs : List (Str × Str)) (cs : List Child) : SlotV Str :=
-  match attrs.lookup fi.name with
-  | some s => if s.isEmpty then .none else .ref1 s
-  | Option.none => .none
-
-def decRefN (mm : MMX) (fi : FInfo) (attrs : List (Str × Str)) : SlotV Str :=
-  match attrs.lookup fi.name with
-  | some s => .refN (pySplit mm.ws s)
-  | Option.none => .refN []
+/-- effective value of a feature after load, from the plain attribute of its name (if any) and the values its child
+    elements gave, in document order.  Single-valued attribute: the last child wins, then the plain attribute, then the
+    default; many-valued: the words of the plain attribute, then the children. -/
+def decS (mm : MMX) (fi : FInfo) (a : Option Str) (kv : List (Option Str)) : Option (Str × SlotV Str) :=
+  match fi.kind with
+  | .attr =>
+    some (fi.name,
+      if fi.many then .attrN ((match a with | some s => (pySplit mm.ws s).map some | Option.none => []) ++ kv)
+      else match (match kv.getLast? with
+          | some r => r
+          | Option.none => match a with
+            | some s => some s
+            | Option.none => fi.dflt) with
+        | Option.none => .none
+        | some s => .attr1 s)
+  | .ref =>
+    some (fi.name,
+      if fi.many then .refN (match a with | some s => pySplit mm.ws s | Option.none => [])
+      else match a with
+        | some s => if s.isEmpty then .none else .ref1 s
+        | Option.none => .none)
+  | _ => Option.none
 
 def decSlot (mm : MMX) (attrs : List (Str × Str)) (cs : List Child) (fi : FInfo) : Option (Str × SlotV Str) :=
-  match fi.kind with
-  | .attr => some (fi.name, if fi.many then decAttrN mm fi attrs cs else decAttr1 fi attrs cs)
-  | .ref => some (fi.name, if fi.many then decRefN mm fi attrs else decRef1 fi attrs cs)
-  | _ => Option.none
+  decS mm fi (attrs.lookup fi.name) (cs.filterMap (kidVal fi.name))
 
 /-- the children held by a containment feature after load: all of them for a many-valued one, the last one for a
     single-valued one (each assignment replaces the previous child), none after an `xsi:nil` -/
@@ -193,24 +184,30 @@ def decCont (fi : FInfo) (cs : List Child) : List (SNode Str) :=
     | some (.node _ n) => [n]
     | _ => []
 
+/-- the class of the object an element stands for: the root's tag, an explicit `xsi:type`, else the declared type -/
+def decClass (mm : MMX) (top : Bool) (decl : Nat) (tag : Str) (type : Option Str) : Option Nat :=
+  if top then mm.cidOf tag else match type with
+    | some t => mm.cidOf t
+    | Option.none => some decl
+
+/-- the object built from an element once its class is known and its children are decoded; `none`: load raises
+    (a child that cannot be decoded, an attribute that is not a feature of the class) -/
+def buildNode (mm : MMX) (top : Bool) (tag : Str) (uuid : Option Str) (cls : Nat) (attrs : List (Str × Str))
+    (cs : List Child) : Option (SNode Str) :=
+  if cs.any isBad then Option.none
+  else if !top && attrs.any (fun a => (mm.find cls a.1).isNone) then Option.none
+  else
+    some (.mk (if top then [] else tag) cls (uuid.getD [])
+      ((mm.feats cls).filterMap (decSlot mm attrs cs))
+      (((mm.feats cls).filter fun fi => fi.kind = .cont).flatMap fun fi => decCont fi cs))
+
 mutual
 /-- `_decode_eobject` + the normal form of the object it builds; `none`: load raises -/
 def decNode (mm : MMX) (top : Bool) (decl : Nat) : Elem → Option (SNode Str)
   | .mk tag type uuid _nil attrs _text kids =>
-    let cls? : Option Nat := if top then mm.cidOf tag else match type with
-      | some t => mm.cidOf t
-      | Option.none => some decl
-    match cls? with
+    match decClass mm top decl tag type with
     | Option.none => Option.none
-    | some cls =>
-      let cs := decKids mm cls kids
-      if cs.any isBad then Option.none
-      else if !top && attrs.any (fun a => (mm.find cls a.1).isNone) then Option.none
-      else
-        let feats := mm.feats cls
-        some (.mk (if top then [] else tag) cls (uuid.getD [])
-          (feats.filterMap (decSlot mm attrs cs))
-          ((feats.filter fun fi => fi.kind = .cont).flatMap fun fi => decCont fi cs))
+    | some cls => buildNode mm top tag uuid cls attrs (decKids mm cls kids)
 def decKids (mm : MMX) (pcls : Nat) : List Elem → List Child
   | [] => []
   | e :: t =>
